@@ -155,6 +155,11 @@ def eval_formula(f, env, binds, F, assume):
 
 
 def run(ctx):
+    _run_main(ctx)
+    upgrade_keeps_credential_identity(ctx)
+
+
+def _run_main(ctx):
     F = ctx.facts
     ctx.explanation = ("Soft-lock clause: every credential verification on the server is dominated by apply_time_step(); is_valid(); a denial "
                        "records a failure; only apply_time_step/record_failure write the lock state; the full-lock branch covers every count at "
@@ -420,3 +425,59 @@ def run(ctx):
                   f"fit into one {'UTC day' if variant == 'Password' else 'TOTP step'}", file=fns["file"], line=first_bad[1] if first_bad else None)
         ctx.sample(f"failure_next_state {variant}: full lock from count {full_from}, threshold {T}, constants {sorted(set(consts))}")
     ctx.exhaustive = True
+
+
+# ---------------------------------------------------------------------------------------------------------------------
+# The soft-lock state is keyed by the credential's uuid. A successful login may queue a hash upgrade (PwUpgrade /
+# UnixPwUpgrade delayed actions); if the upgrade built a *new* credential (fresh uuid) instead of re-hashing the existing one,
+# the next attempt would start from an empty lock: the failure count would reset because of a successful login. So from the two
+# upgrade helpers no credential constructor and no Uuid::new_v4 may be reachable, and both go through Credential::upgrade_password.
+
+def upgrade_keeps_credential_identity(ctx):
+    import re as _re
+    F = ctx.facts
+    R_ = "K9-upgrade-keeps-credential-identity"
+    g = {}
+    for (caller, callee, _r, _l, _e, _s) in F.calls(LIB):
+        g.setdefault(_re.sub(r"::\{closure#\d+\}", "", caller), set()).add(callee)
+    starts = sorted(n for n in g if n.endswith("::gen_password_upgrade_mod"))
+    ctx.floor(R_, "password upgrade helpers", len(starts), 2)
+    FORBID = ("::new_v4", "Credential::new_password_only", "Credential::new_from_password", "Credential::new_generatedpassword_only")
+    for s0 in starts:
+        seen, st, par = {s0}, [s0], {}
+        while st:
+            x = st.pop()
+            for y in g.get(x, ()):
+                if y not in seen and (y.startswith("kanidmd_lib::") or y.endswith("::new_v4")):
+                    seen.add(y)
+                    par[y] = x
+                    if not y.endswith("Credential::upgrade_password"):   # the uuid-restoring primitive, checked on its own below
+                        st.append(y)
+        bad = sorted(y for y in seen if y.endswith(FORBID))
+        path = ""
+        if bad:
+            p, y = [], bad[0]
+            while y in par:
+                p.append(short(y, 2))
+                y = par[y]
+            path = " <- ".join(p + [short(s0, 2)])
+        fn = F.fn(LIB, s0)
+        ctx.check(not bad, R_, s0, "no-fresh-credential-reachable", f"{len(seen)} functions reachable, none builds a new credential / uuid",
+                  f"the hash-upgrade helper reaches {[short(b, 2) for b in bad]} ({path}): the upgraded credential gets a new uuid, the soft lock keyed by the old uuid "
+                  "is abandoned and the failure count restarts after a successful login", file=fn["file"] if fn else None, line=fn["line"] if fn else None)
+        ctx.check(any(y.endswith("Credential::upgrade_password") for y in g.get(s0, ())), R_, s0, "via:Credential::upgrade_password",
+                  "re-hashes the existing credential", "the hash-upgrade helper no longer goes through Credential::upgrade_password (which keeps the credential uuid)",
+                  file=fn["file"] if fn else None, line=fn["line"] if fn else None)
+    up = ctx.fn(LIB, "kanidmd_lib::credential::Credential::upgrade_password")
+    selfs = {p["pat"].get("local") for p in up["params"] if p["pat"].get("name") == "self"}
+    restores = []
+    for x in walk(up["body"]):
+        if x.get("e") == "assign":
+            l, r = unwrap(x["l"]), unwrap(x["r"])
+            if l.get("e") == "field" and l.get("f") == "uuid" and r.get("e") == "field" and r.get("f") == "uuid":
+                rb = unwrap(r["x"])
+                if rb.get("e") == "path" and rb.get("res", {}).get("local") in selfs:
+                    restores.append(x)
+    ctx.check(bool(restores), R_, up["fn"], "restores-own-uuid", "cred.uuid = self.uuid after update_password",
+              "Credential::upgrade_password no longer sets the re-hashed credential's uuid back to its own: update_password rotates the uuid, so the soft lock keyed by it "
+              "restarts after a successful login", file=up["file"], line=up["line"])
